@@ -158,6 +158,7 @@ type Job struct {
 	Cube        int               `json:"cube,omitempty"`            // number of nonlinear polynomials to case-split by sign
 	NoCover     bool              `json:"no_cover,omitempty"`
 	NoKnown     bool              `json:"no_known,omitempty"`        // skip known-finding obligations (their presence is established by witness replay)
+	SymBudget   int               `json:"sym_budget_s,omitempty"`    // wall-clock budget of the symbolic execution of this job (default 180 s)
 	IntBound    int64             `json:"int_bound,omitempty"`       // bound of the integer re-query that makes a model replayable (default 2^20)
 	Nlsat       bool              `json:"nlsat_first,omitempty"`     // conjunctive path queries: z3 4.8.12 default tactic only, others on unknown
 	Abstract    bool              `json:"abstract_floats,omitempty"` // harness runs with uninterpreted float arithmetic: cover witnesses are not replayed natively
@@ -326,6 +327,7 @@ func (r *Runner) symExec(job *Job, jr *JobResult) (paths []pathResult, err error
 		return nil, fmt.Errorf("harness %s not found", job.Harness)
 	}
 	funcs := map[string]bool{}
+	var jobDeadline time.Time
 	resetTermStore()
 	pending := [][]int{{}}
 	maxPaths := 20000
@@ -350,6 +352,15 @@ func (r *Runner) symExec(job *Job, jr *JobResult) (paths []pathResult, err error
 			in.forkIn[c] = true
 		}
 		in.decisions = append([]int{}, dec...)
+		budget := 180
+		if job.SymBudget > 0 {
+			budget = job.SymBudget
+		}
+		if len(paths) == 0 {
+			jobDeadline = time.Now().Add(time.Duration(budget) * time.Second)
+		}
+		in.deadline = jobDeadline
+		in.maxTerms = 4000000
 		in.solverFeas = func(t *Term) string {
 			res := solve([]*Term{t}, ScriptOpts{}, r.feasTO)
 			return res.status
